@@ -25,14 +25,25 @@ class Unrecognised(Exception):
     pass
 
 
+def jsonable(x):
+    """Make any rule payload JSON-serialisable (tuple keys, sets, terms)."""
+    if isinstance(x, dict):
+        return {(k if isinstance(k, (str, int, float, bool)) or k is None else str(k)): jsonable(v) for k, v in x.items()}
+    if isinstance(x, (list, tuple, set, frozenset)):
+        return [jsonable(v) for v in (sorted(x, key=str) if isinstance(x, (set, frozenset)) else x)]
+    if isinstance(x, (str, int, float, bool)) or x is None:
+        return x
+    return str(x)
+
+
 class Inst(object):
     def __init__(self, rule, key, ok, site, built=None, expected=None, why=None, info=False, kind='rule'):
         self.rule = rule
         self.key = key
         self.ok = ok
         self.site = site
-        self.built = built
-        self.expected = expected
+        self.built = jsonable(built)
+        self.expected = jsonable(expected)
         self.why = why
         self.info = info
         self.kind = kind
